@@ -275,7 +275,7 @@ def execute(record, trace=False):
                 obs_by_layout[layout] = obs
                 check(s, record, obs, layout, lexicon_all, counters)
             except Violation as v:
-                st = dict(s.stats)
+                st = s.full_stats()
                 return engine.result_violation(v.clause, v.detail, sig=v.sig, stats=st, digest=s.k.event_digest())
             except (SimAbort, SimKilled) as e:
                 return engine.result_harness("aborted: %s" % type(e).__name__)
